@@ -330,7 +330,7 @@ theorem C09_shape_census :
       ["assets.depositLST", "assets.withdrawLST", "assets.depositNST", "assets.withdrawNST",
        "assets.registerOrUpdateClientChain", "assets.registerToken", "assets.updateToken", "reward.claimReward",
        "msg.delegate", "msg.undelegate", "msg.optIn", "msg.optOut", "operator.Slash", "delegation.EndBlock.record",
-       "operator.UpdateVotingPower", "oracle.UpdateNSTByBalanceChange"] := by decide
+       "operator.UpdateVotingPower", "oracle.UpdateNSTByBalanceChange", "oracle.CreatePrice", "oracle.UpdateParams"] := by decide
 
 /-! ## non-vacuity -/
 
